@@ -435,6 +435,17 @@ Proof.
   - rewrite carousel_fallback by assumption. now apply rr_valid.
 Qed.
 
+(* the premise head_ok is needed: the carousel trusts the certificate of the committed head, so a head whose
+   certificate lists a non-member (accepted by the genesis shortcut of VerifyQuorumCert before
+   fixes/C16-genesis-qc-signature.patch) makes it name a replica that does not exist *)
+Lemma carousel_unknown_signer :
+  exists c cl rnd h round l, (1 <= c_n c < 2^32)%Z /\ (forall s, 0 <= rnd s)%Z /\ h_qc h = Some [77%N] /\
+    carousel c cl rnd h round = Ok l /\ ~ (1 <= Z.of_N l <= c_n c)%Z.
+Proof.
+  exists (Build_config 1%N 4%Z 0%Z None), 3%Z, (fun _ => 5%Z), (Build_head 1%N (Some [77%N]) [2%N]), 4%N, 77%N.
+  cbn [c_n h_qc]. split; [lia|]. split; [intros; lia|]. split; [reflexivity|]. split; [vm_compute; reflexivity|lia].
+Qed.
+
 (* ------------------------------------------------------------------------------------------ *)
 (* reputation: with the weight list sorted by replica id (the repaired comparator) the answers do
    not depend on the order in which the certificates list their signers *)
